@@ -22,7 +22,9 @@ reference model); all slots share the run's SimFS.  Generic operations:
 Format-specific subclasses provide: new_obj, observe, validity, expected_loaded,
 and their API ops.
 """
+import collections
 import copy
+import random
 import io
 import json
 
@@ -228,15 +230,22 @@ class FormatMachine(MachineBase):
             raise Violation(self.ROUNDTRIP_PROP, "%s.dump_writes_what_was_asked" % self.ROUNDTRIP_PROP, "dump-returned-but-file-is-not-text/%s" % self.FORMAT,
                             {"bytes": len(after)})
         CTX.dump_hashes.append(_sha(text))
-        if self.watching("C08") and verdict == VALID and "main_variant" not in op:
-            # the bytes at the destination are a function of the content alone: equal to what dumps() returns now,
-            # whatever was at that path before
+        if self.watching("C08") and verdict == VALID and before is not None and op.get("to") != "handle":
+            # the bytes at the destination are a function of the content alone, whatever was at that path before: the same
+            # call aimed at a path where nothing was yet writes the same bytes
+            fresh = path + ".c08-fresh"
+            self.fs.remove(fresh)
             try:
-                again = s.obj.dumps()
-            except Exception:
+                self.do_dump(s, fresh, op)
+                again = self.fs.get(fresh)
+            except Exception as e:
+                if isinstance(e, HarnessError):
+                    raise
                 again = None
-            if again is not None and again != text:
-                raise Violation("C08", "C08.file_bytes_equal_dumps", "file-differs-from-dumps/%s" % self.FORMAT, {"diff": _text_diff(again, text)})
+            self.fs.remove(fresh)
+            if again is not None and again != after:
+                raise Violation("C08", "C08.bytes_independent_of_previous_file", "bytes-depend-on-previous-file/%s" % self.FORMAT,
+                                {"diff": _text_diff(again.decode("utf-8", "replace"), text)})
         if verdict == VALID:
             self.count("C06", ["valid-written", self.FORMAT, self.abstract(s)])
         self.check_canonical(text)
@@ -292,6 +301,38 @@ class FormatMachine(MachineBase):
             self.durable[path]["expected"] = None
         CTX.fault("F4.destination_replaced_by_another_writer")
         return "clobbered:" + how
+
+    def op_fs_reorder_json(self, op):
+        """somebody re-saved the stored JSON document with another tool: same content, other KEY ORDER in every object (and
+        other whitespace) - the order of the keys of a JSON object carries no information"""
+        path = self.path(op)
+        d = self.durable.get(path)
+        raw = self.fs.get(path)
+        if d is None or raw is None or self.KIND != "json":
+            return "noop"
+        try:
+            doc = json.loads(raw.decode("utf-8"))
+        except ValueError:
+            return "noop"
+        rng = random.Random(op.get("seed", 0))
+        how = op.get("how", "shuffle")
+
+        def reorder(x):
+            if isinstance(x, dict):
+                keys = sorted(x)
+                if how == "reverse":
+                    keys.reverse()
+                else:
+                    rng.shuffle(keys)
+                return collections.OrderedDict((k, reorder(x[k])) for k in keys)
+            if isinstance(x, list):
+                return [reorder(i) for i in x]
+            return x
+        self.fs.put(path, json.dumps(reorder(doc), indent=pick_indent(rng), ensure_ascii=rng.random() < 0.5))
+        d["bytes"] = self.fs.get(path)
+        d["lossy"] = True       # the file is no longer the library's own canonical rendering of the content
+        CTX.fault("F3.json_keys_reordered")
+        return "reordered"
 
     def op_dumps(self, op):
         s = self.slot(op)
@@ -838,6 +879,10 @@ class FormatMachine(MachineBase):
                 raise Violation("C08", "C08.repeated_dump_same_bytes", "repeat-differs/%s" % self.FORMAT,
                                 {"diff": _text_diff(texts[0], t)})
         return "same"
+
+
+def pick_indent(rng):
+    return rng.choice([None, 1, 2, 4])
 
 
 def _sha(text):
